@@ -246,3 +246,41 @@ def rule_subscribe_atomic(rep: Report, cls: Fn, rule: str = "B3-subscribe-branch
            f"{cls.name}._subscribe_core tests is_stopped and registers the observer in different (or no) locked regions: a "
            f"subscriber overtaken by on_completed / on_error between the two is appended to a terminated subject and never "
            f"receives the terminal notification (or the replayed value)")
+
+
+STATE_FIELDS = ("exception", "value", "has_value", "is_stopped", "observers", "queue", "is_disposed")
+
+
+def rule_locked_reads(rep: Report, cls: Fn, rule: str = "B3-subscribe-branches") -> int:
+    """In `_subscribe_core` and the three `_on_*_core` methods every read of a state field of the subject happens inside
+    `with self.lock` (decisions after the locked region use the locals snapshotted in it): a field re-read after the lock was
+    released may have been reset by a dispose() from a handler or another thread."""
+    n = 0
+    for mname in ("_subscribe_core", "_on_next_core", "_on_error_core", "_on_completed_core"):
+        m = cls.child(mname)
+        if m is None:
+            continue
+        for s in sites(m):
+            nd = s.node
+            if isinstance(nd, ast.Attribute) and isinstance(nd.ctx, ast.Load) and isinstance(nd.value, ast.Name) and nd.value.id == "self" and nd.attr in STATE_FIELDS:
+                n += 1
+                rep.ob(rule, m, f"{cls.name}.{mname}: read of self.{nd.attr} in `{short(s.stmt, 50)}` under the lock", bool(s.ctx.locks),
+                       f"{cls.name}.{mname} reads self.{nd.attr} after (or outside) its locked region: a dispose() issued from an observer's handler "
+                       f"or another thread in between resets the field, and the notification decided / delivered here is the wrong one "
+                       f"(an error replaced by None, an error path taken as the value path)")
+    return n
+
+
+def rule_delivery_argument(rep: Report, m: Fn, rule: str = "B2-state-before-callout") -> int:
+    """What a delivery loop hands to each observer is the core's own parameter or a local snapshotted under the lock — never a
+    field of the subject read inside the loop."""
+    n = 0
+    for lp, it, var, calls in delivery_loops(m):
+        for c in calls:
+            for a in c.args:
+                n += 1
+                bad = [x for x in ast.walk(a) if isinstance(x, ast.Attribute) and isinstance(x.value, ast.Name) and x.value.id == "self"]
+                rep.ob(rule, m, f"{m.qual}: `{short(c, 50)}` delivers a parameter / locked snapshot", not bad,
+                       f"{m.qual} hands `{u(a)}` to each observer: a field of the subject re-read during the fan-out, which an observer's handler "
+                       f"(re-entrant on_next / dispose) may already have changed — later observers get a different notification from earlier ones")
+    return n
